@@ -837,4 +837,34 @@ theorem C11_gen_lib :
     Generated.C11.libProbe = some [("nL-nonempty", 0), ("nL-utf8", 0), ("nR-idempotent", 0),
       ("nR-nonempty", 0), ("nR-utf8", 0), ("idna-utf8", 0), ("idna-clean", 0)] := by decide
 
+/-! ### Algebra of `Bare`, `Domain` and `Equal` -/
+
+/-- `Bare` and `Domain` are projections: applying them again changes nothing, `Domain` absorbs
+`Bare` in either order, for every well-formed packed value (any lengths) -/
+theorem C11_bare_domain_laws (j : Jid) (h : j.WF) :
+    j.bare.bare = j.bare ∧ j.domain.domain = j.domain ∧
+    j.bare.domain = j.domain ∧ j.domain.bare = j.domain := by
+  have e := eq_mk_parts j h
+  generalize j.localpart = l at e
+  generalize j.domainpart = d at e
+  generalize j.resourcepart = r at e
+  subst e
+  simp [bare_mk, domain_mk]
+
+/-- `Bare()` is the value itself exactly for the addresses without resourcepart -/
+theorem C11_bare_fixed_iff (j : Jid) (h : j.WF) : j.bare = j ↔ j.resourcepart = [] := by
+  have hb := (C11_accessors_agree j h)
+  constructor
+  · intro e; rw [← e]; exact hb.2.2.2.1
+  · intro e
+    apply ((C11_equal_iff j.bare j hb.2.2.2.2.2.2.2.2.2.1 h).2).mpr
+    exact ⟨hb.2.1, hb.2.2.1, by rw [hb.2.2.2.1, e]⟩
+
+/-- `Equal` is an equivalence relation (on all packed values, well-formed or not) -/
+theorem C11_equal_equivalence (a b c : Jid) :
+    a.equal a = true ∧ (a.equal b = true → b.equal a = true) ∧
+    (a.equal b = true → b.equal c = true → a.equal c = true) := by
+  refine ⟨(equal_iff a a).mpr rfl, fun h => ?_, fun h1 h2 => ?_⟩
+  · rw [(equal_iff a b).mp h]; exact (equal_iff b b).mpr rfl
+  · rw [(equal_iff a b).mp h1]; exact h2
 end XmppModel.Props.C11
